@@ -97,14 +97,18 @@ def make_models(rng):
         'GammaGAM': np.exp(eta + noise), 'InvGaussGAM': np.exp(eta / 2 + noise / 2) + 0.5,
     }
     domain_bad = {'LogisticGAM': [2.0, -1.0], 'PoissonGAM': [-1.0], 'GammaGAM': [-0.5], 'InvGaussGAM': [-2.0]}
-    models = {}
+    models, failed = {}, []
     for cls, y in ys.items():
         ctor = getattr(pygam, cls)
         def new(ctor=ctor):
             return ctor(terms())
-        fitted = new().fit(X, y)
+        try:
+            fitted = new().fit(X, y)
+        except Exception as e:
+            failed.append('%s: %s: %s' % (cls, type(e).__name__, str(e)[:200]))
+            continue
         models[cls] = dict(new=new, fitted=fitted, y=y, bad=domain_bad.get(cls))
-    return X, models
+    return X, models, failed
 
 
 def classify(a):
@@ -279,10 +283,14 @@ def find_exception(excs, e, kind, cont, fitted):
 
 # ----------------------------------------------------------------------------------------- entry-point stream
 def entry_stream(res, rng, entries, excs):
-    X, models = make_models(rng)
+    X, models, failed = make_models(rng)
+    res.obligation('correspondence:base models fit on small valid data (spline + linear + factor, 30 rows)', not failed,
+                   detail='; '.join(failed), kind='correspondence')
     cases, meta = [], []
     heavy_meths = ('sample', 'gridsearch', 'fit_quantile')
     for e in entries:
+        if e['cls'] not in models:
+            continue
         minfo = models[e['cls']]
         kinds = applicable_kinds(e)
         states = ['fitted', 'unfitted'] if e['fitting'] else ['fitted']
@@ -419,6 +427,16 @@ def run(res):
                 'property statement. A case is distinct by (class, method, argument, variant, state, loop mode); all are '
                 'non-trivial. Fits on nasty-but-finite data (constant column, 1e+-150 magnitudes, n<m, zero weights, '
                 'constant y, duplicated rows) are explored (not proved): ValueError or finite model required.')
+    res.trusted += [
+        'translator /verif/translator/skel_c11.py (validation traces; conventions: X and y always passed, other optional '
+        'data arguments None unless traced, non-data parameters at their defaults, self-calls inlined to depth 6 with '
+        'dynamic dispatch from the receiving class, for-loops may run 0 times, `while` decided at its default entry state; '
+        'partial_dependence(meshgrid=True), sample(quantity="coef") and the non-property argument `mu` of accuracy are not traced)',
+        'hand-written model of pygam/utils.py check_array / check_y / check_X / check_lengths / check_X_y '
+        '(coq/Model/Validation.v), tied to the source only by the correspondence run (not translated)',
+        'theorems speak about traces: "ValueError before any non-validating use"; the implementation-level statement is '
+        'checked by the direct probe on a finite stream only',
+    ]
     entries = prove(res)
     if entries is None:
         # translation failed: still evaluate the property on the implementation with the last generated table if possible
